@@ -144,3 +144,33 @@ def check_C02(ctx):
                     assumptions=["cache exactness (vbu_ok/ebu_ok/fbu_ok) and the size invariant are hypotheses of the deferred-mode theorems; the size invariant is proved for every "
                                  "reachable state, cache exactness is evaluated by the sound decision procedures of Kernel/InvB.v on every model state the run visits",
                                  "the immediate and fast modes (renumbering) are covered by lock step + oracle, not by a theorem; the oracle identifies vertices by position tokens"])
+
+def check_C12(ctx):
+    kernel_property(ctx, "C12", "Props/Properties_C12.v", ["toggles", "valid", "toggles", "swaps"],
+                    {"DelV", "DelE", "DelF", "DelC", "SwapV", "SwapE", "SwapF", "SwapC", "GC", "EnVBU", "EnEBU", "EnFBU", "EnDef", "AddE", "AddFV", "AddC"},
+                    assumptions=["'no operation reads a disabled cache out of range' is decided on the real library by ASan/UBSan/_GLIBCXX_ASSERTIONS on every lock-step run "
+                                 "(all 8 incidence subsets x 4 deletion modes) and by the twin-mesh oracle, not by a theorem (the model totalises vector reads)",
+                                 "edge incidences after re-enabling: exact membership proved; the subsequent rotational re-ordering is C09"])
+
+def check_C04(ctx):
+    kernel_property(ctx, "C04", "Props/Properties_C04.v", ["valid", "swaps"], {"GC", "EnDef", "StatusGC"},
+                    assumptions=["proved: counters/modes/sizes after collection in every state; 'the logical mesh is unchanged' and handle tracking are tied by lock step "
+                                 "(incl. StatusAttrib::garbage_collection with tracking and the manifoldness option) and decided on the real library by the identity-token oracle"])
+
+def check_C01(ctx):
+    kernel_property(ctx, "C01", "Props/Properties_C01.v", ["valid", "toggles", "setops", "swaps"],
+                    {"DelV", "DelE", "DelF", "DelC", "SwapV", "SwapE", "SwapF", "SwapC", "GC", "EnVBU", "EnEBU", "EnFBU", "AddE", "AddFV", "AddC", "SetE", "SetF", "SetC"},
+                    assumptions=["preservation of the invariant by every incremental update is not proved (see Properties_C01.v); it is checked by sound extracted decision "
+                                 "procedures on every explored model state, which is compared cache for cache with the library",
+                                 "valid histories: live-handle arguments, no halfface in two live cells, no face listing a halfedge twice"])
+    # the derived queries: theorems of the iterator component + its query lock step / brute-force oracle on every accessor
+    try:
+        import checks_iter
+        save = (ctx.cov["obligations"], ctx.cov["discharged"], list(ctx.theorems), ctx.cov["checker_cmd"])
+        ok = fw.coq_prove(ctx, "Props/Properties_C01_queries.v")
+        ctx.cov["obligations"] += save[0]; ctx.cov["discharged"] += save[1]; ctx.theorems = save[2] + ctx.theorems
+        ctx.cov["checker_cmd"] = save[3] + " ; same for Props/Properties_C01_queries.v"
+        qr = checks_iter.run_queries(ctx)
+        checks_iter.judge_queries(ctx, qr, oracles=("C01",))
+    except ImportError:
+        ctx.notes.append("iterator component not present: derived queries not checked")
